@@ -28,7 +28,7 @@ for fam, fdir in FAMILIES:
             stub=['Objects_Surface_local_value', 'Objects_NaturalCoordinate_get_surface_point'],
             nothrow=['Objects_NaturalCoordinate_get_surface_point'],
             replace=['Objects_Surface_local_value', 'Objects_NaturalCoordinate_get_surface_point'],
-            outline_fp=True, defines={'FAM': fam, kdef: 1, 'WB_VEC_CAP': 2},
+            outline_fp='all', defines={'FAM': fam, kdef: 1, 'WB_VEC_CAP': 2},
             expect_fail=['REACHABILITY-GUARD'], spurious_if_oracle_holds=True))
 
 
